@@ -35,6 +35,8 @@ def _is_integer(n) -> bool:
 
 
 def _is_swaplike(gate: cirq.Gate) -> bool:
+    if protocols.is_parameterized(gate):
+        return False  # Not known to be swap-like for every value of its symbols.
     if isinstance(gate, ops.SwapPowGate):
         return gate.exponent == 1
 
